@@ -230,8 +230,13 @@ def check(run):
             c = case['c']
             M = np.array(r['m'], float) / r['den']
             theta = angle_of(c)
-            for sc in scales_axis:
-                axis = np.array(c['u'], float) * sc
+            forms = [np.array(c['u'], float) * sc for sc in scales_axis]
+            # the same axes as integer arrays of every width (norms 1e2 .. 1e6, squared norms beyond the narrow types) and as lists
+            forms += [np.array(c['u'], dtype=np.int32) * 50000, np.array(c['u'], dtype=np.int16) * 200,
+                      np.array(c['u'], dtype=np.int8) * np.int8(100 // max(abs(int(x)) for x in c['u'])), np.array(c['u'], dtype=np.int64) * 10 ** 6,
+                      [int(x) * 3 for x in c['u']], tuple(float(x) for x in c['u'])]
+            for fi, axis in enumerate(forms):
+                sc = scales_axis[fi] if fi < len(scales_axis) else 'form%d' % fi
                 nrot += 1
                 try:
                     R = rotation_matrix(axis, theta)
